@@ -38,6 +38,38 @@ def real_monotonic() -> float:
     return _REAL_MONOTONIC()
 
 
+def _unfreeze_stdlib() -> None:
+    """Modules that poll with `time.monotonic()` looked up dynamically would spin for ever on a frozen clock
+    (multiprocessing.connection.wait(timeout=0) inside Pool's handler thread): give them the real clock."""
+    import types
+
+    real = types.SimpleNamespace(monotonic=_REAL_MONOTONIC, sleep=_REAL_SLEEP, time=_time.time,
+                                 perf_counter=_time.perf_counter)
+    try:
+        import multiprocessing.connection as _mc
+        import multiprocessing.pool as _mp
+        import multiprocessing.queues as _mq
+        import multiprocessing.synchronize as _ms
+
+        for mod in (_mc, _mp, _mq, _ms):
+            if hasattr(mod, "time"):
+                mod.time = real
+    except Exception:  # noqa: BLE001
+        pass
+    try:  # Popen.wait(timeout=…) polls through time.sleep: must not advance (or record on) the virtual clock
+        import concurrent.futures._base as _cfb
+        import subprocess as _sp
+
+        for mod in (_sp, _cfb):
+            if hasattr(mod, "time"):
+                mod.time = real
+    except Exception:  # noqa: BLE001
+        pass
+
+
+_unfreeze_stdlib()
+
+
 class NoQuiescence(RuntimeError):
     pass
 
@@ -90,6 +122,7 @@ class VLoop(asyncio.SelectorEventLoop):
 
 
 def new_loop() -> VLoop:
+    CLOCK.now = 1000.0  # every case starts at the same exact instant (integer ticks stay exact)
     loop = VLoop()
     asyncio.set_event_loop(loop)
     return loop
